@@ -43,7 +43,8 @@ MIN_REACH = {
 }
 TIME_BUDGET = {"quick": 500, "thorough": 3400}
 KINDS = ["lineplot", "lineplot", "scatter", "scatter", "histogram", "heatmap", "lineplot_grid", "scatter_grid", "heatmap_grid",
-         "histogram_grid", "auto_lineplot", "auto_scatter", "auto_histogram", "auto_heatmap", "lineplot_multivar", "lineplot_c"]
+         "histogram_grid", "auto_lineplot", "auto_scatter", "auto_histogram", "auto_heatmap", "lineplot_multivar", "lineplot_c",
+         "scatter_2d"]
 
 
 def cases(ctx):
@@ -188,6 +189,28 @@ def build(case):
         if o.get("colormap_log"):
             cz = np.abs(cz) + 0.1
         data["cc"] = (("z",), cz)
+    if kind == "scatter_2d":
+        # x and y are data variables over the same dimensions (p, q) [and z] but STORED in different dimension orders,
+        # with equal lengths half of the time (label-wise pairing is what must be drawn)
+        npq = int(rng.integers(2, 5))
+        nq = npq if case["dseed"] % 2 else int(rng.integers(2, 5))
+        coords["p"] = _axis(rng, npq, "int", "asc", lo=1)
+        coords["q"] = _axis(rng, nq, "int", "asc", lo=10)
+        shp = {"p": npq, "q": nq, "z": nz}
+        orders = [("z", "p", "q"), ("q", "z", "p"), ("p", "q", "z"), ("q", "p", "z")]
+        du = orders[case["dimorder_seed"] % 4]
+        dv = orders[(case["dimorder_seed"] // 4 + 1) % 4]
+        u = rng.normal(size=tuple(shp[d] for d in du))
+        v = rng.normal(size=tuple(shp[d] for d in dv))
+        if case["nan"] != "none":
+            v[rng.random(v.shape) < 0.15] = np.nan
+            u[rng.random(u.shape) < 0.1] = np.nan
+        data = {"u": (du, u), "y": (dv, v)}
+        if case["dseed"] % 3 == 0:
+            data["w1"] = (("p",), rng.normal(size=npq))       # a variable over p only, against one over q only
+            data["w2"] = (("q",), rng.normal(size=nq))
+        coords.pop("x", None)
+        return xr.Dataset(data, coords=coords)
     if kind == "scatter" and case["dseed"] % 3 == 0:
         cv = values()
         if o.get("colormap_log"):
@@ -410,6 +433,36 @@ def run_case(ctx, case):
                 ds_used = sel
                 fig = xyzpy.lineplot(sel, "x", ynames, **kw)
                 base = "lineplot"
+            elif base == "scatter_2d":
+                use_z = case["dseed"] % 4 != 1
+                if not use_z and kw.get("colors") is True:
+                    # colour-mapping needs a z coordinate (or c): not applicable to a single unlabelled series
+                    kw.pop("colors")
+                    o.pop("colors")
+                if "w1" in ds and not use_z:
+                    xname, ynames = "w1", ["w2"]
+                    fig = xyzpy.scatter(ds, "w1", "w2", **{k: v for k, v in kw.items() if k in ("colors", "colormap", "markers", "legend", "title")})
+                    zvals = [None]
+                elif use_z:
+                    xname = "u"
+                    fig = xyzpy.scatter(ds, "u", "y", "z", **{k: v for k, v in kw.items() if k in ("colors", "colormap", "colormap_reverse", "markers", "legend", "title", "zlabels", "legend_reverse")})
+                else:
+                    xname = "u"
+                    sel = ds.isel(z=0)
+                    ds_used2 = sel
+                    fig = xyzpy.scatter(sel, "u", "y", **{k: v for k, v in kw.items() if k in ("colors", "colormap", "markers", "legend", "title")})
+                    zvals = [None]
+                    ds = sel
+                    before = sel.copy(deep=True)
+                o = {k: v for k, v in o.items() if k in ("colors", "colormap", "colormap_reverse", "markers", "legend", "title", "zlabels", "legend_reverse", "_c")}
+                if zvals == [None]:
+                    if o.get("colors") is True:
+                        raise AssertionError("unreachable")
+                    o.pop("zlabels", None)
+                    kw.pop("zlabels", None)
+                    o.pop("legend_reverse", None)
+                    kw.pop("legend_reverse", None)
+                base = "scatter"
             elif base == "scatter":
                 if "cv" in ds:
                     kw.pop("colors", None)
@@ -444,8 +497,10 @@ def run_case(ctx, case):
 
     # ------------------------------------------------------------------ expected colours / labels
     multivar = len(ynames) > 1
+    if zvals == [None]:
+        kw.pop("zlabels", None)
     ser_names = ynames if multivar else zvals
-    labels = [str(s) for s in ser_names]
+    labels = [None if s is None else str(s) for s in ser_names]
     if kw.get("zlabels"):
         labels = list(kw["zlabels"])[:len(labels)]
     try:
@@ -498,7 +553,7 @@ def run_case(ctx, case):
             bad.extend(b[:2])
             ctx.count("panels_compared")
             lg = axes[0].get_legend()
-            if lg is not None:
+            if lg is not None and all(l is not None for l in labels):
                 texts = [t.get_text() for t in lg.get_texts()]
                 want = labels[::-1] if kw.get("legend_reverse") else labels
                 if texts != want:
